@@ -86,7 +86,12 @@ class C01(Prop):
                         'counter': 'metric'}[pf[0]]
                 r = dict(r, tps=[dict(r['tps'][0], action=want, cond=None, kind='line', where=['stmt', 0])] + r['tps'][1:])
             return r
-        return fd({
+        # two application threads at one tracepoint, one of them holding an application lock that a collected value's
+        # __str__ also takes: an agent that holds a lock of its own while it runs application code turns that into a
+        # deadlock the application does not have by itself
+        host_lock = fd({'mode': st.just('host_lock'), 'action': st.sampled_from(['snapshot', 'log', 'snapshot+log']),
+                        'fire_count': st.sampled_from(['-1', '2', '5'])})
+        general = fd({
             'prog': progs.program_recipes(n_values=5, hold_bias=2),
             'values': values.value_recipes(ALL_KINDS, min_nodes=5, max_nodes=8, max_items=3),
             'tps': st.lists(tp, min_size=1, max_size=5),
@@ -96,6 +101,7 @@ class C01(Prop):
             # thorough: for some programs *every* fault point the dry run reached is tried (first and last call)
             'all_faults': st.integers(0, 49).map(lambda x: x == 0 and tier != 'quick'),
         }).map(align)
+        return st.one_of(*([general] * 30 + [host_lock]))
 
     # -------------------------------------------------------------------------------------------------
     def build_triggers(self, recipe, rendered):
@@ -202,7 +208,85 @@ def run_with_globals(prog, rendered, tracer, vals, register_sources):
         del builtins.raise_base
 
 
+HOST_LOCK_SRC = '''def work(v, hold):
+    if hold:
+        L.acquire()
+    x = 1
+    if hold:
+        L.release()
+    return x
+'''
+
+
+def case_host_lock(self, recipe):
+    out = Outcome()
+    out.cls('host_lock_held_at_tracepoint')
+    out.nontrivial = True
+    lab.reset_world()
+    path = '/app/pkg/locks.py'
+    lab.register_source(path, HOST_LOCK_SRC)
+    host_lock, b_inside, a_finished = threading.Lock(), threading.Event(), threading.Event()
+    state = {}
+
+    class Guarded:
+        armed = True
+
+        def __str__(self):
+            if Guarded.armed:
+                Guarded.armed = False
+                b_inside.set()
+                # the other thread takes the lock, passes the tracepoint and releases it: wait for that - or, if it is
+                # stuck at the tracepoint, give up waiting; the waits only decide when we try the lock, not the verdict
+                a_finished.wait(1.5)
+                if not host_lock.acquire(timeout=6):
+                    state['deadlock'] = True
+                    return 'guarded'
+                host_lock.release()
+            return 'guarded'
+
+    args = {'fire_count': recipe['fire_count'], 'fire_period': '0'}
+    if 'log' in recipe['action']:
+        args['log_msg'] = 'v={v}'
+        if recipe['action'] == 'log':
+            args['snapshot'] = 'no_collect'
+    trig = build_trigger('tp-lock', 'locks.py', 4, args, ['v'] if 'snapshot' in recipe['action'] else [], [])
+    handler, cfg, push = lab.make_handler([trig], plugins=[lab.RecLogger()])
+    ns = {'L': host_lock, '__name__': 'locks'}
+    exec(compile(HOST_LOCK_SRC, path, 'exec'), ns)
+    results = {}
+
+    def run(name, v, hold):
+        sys.settrace(handler.trace_call)
+        try:
+            results[name] = ns['work'](v, hold)
+        except BaseException as e:      # noqa
+            results[name] = 'raised %s' % type(e).__name__
+        finally:
+            sys.settrace(None)
+            if name == 'A':
+                a_finished.set()
+    tb = threading.Thread(target=run, args=('B', Guarded(), False), name='host-B', daemon=True)
+    ta = threading.Thread(target=run, args=('A', 'plain', True), name='host-A', daemon=True)
+    tb.start()
+    if not b_inside.wait(10):
+        tb.join(10)
+        lab.reset_world()
+        return out          # the value was never rendered (nothing to interleave with)
+    ta.start()
+    ta.join(20)
+    tb.join(20)
+    if state.get('deadlock') or ta.is_alive() or tb.is_alive():
+        out.violate('host program hangs: two application threads deadlock at a tracepoint (the agent holds a lock of its '
+                    'own while it runs application code)', {'action': recipe['action']})
+    elif results != {'A': 1, 'B': 1}:
+        out.violate('host_lock: program result differs from the agent-free run', {'results': results})
+    lab.reset_world()
+    return out
+
+
 def run_case(self, recipe):
+    if recipe.get('mode') == 'host_lock':
+        return case_host_lock(self, recipe)
     out = Outcome()
     rendered = progs.render(recipe['prog'])
     base, _, _, _ = self.one_run(recipe, rendered, with_agent=False)
